@@ -19,4 +19,8 @@ def run(ctx):
     dbcommon.run_db(ctx, "admin", 20 if ctx.thorough() else 1, "C16a")
     dbcommon.run_db(ctx, "tran", 30 if ctx.thorough() else 2, "C16c")
     dbcommon.run_db(ctx, "tranpairs", 30 if ctx.thorough() else 2, "C16p")
+    # nothing committed may be lost by persist: what was visible before a clean close is what a
+    # reopen shows (real files, transactions spanning persists, index builds over unpersisted rows)
+    import durcommon
+    durcommon.run_file(ctx, "reopen", 20 if ctx.thorough() else 4, 0, "C16r")
     ctx.assumptions += dbcommon.ASSUME
